@@ -301,7 +301,8 @@ class C08(Check):
     nshards = 64
     rule = (
         "every nest of loop c {..} (c in 0..3), top-level {..}, <{..}> over closed subcircuits (inline "
-        "prepare_all..measure_all or subcircuit{}) with <= N nodes and <= 6 subcircuits, plus the nests over open "
+        "prepare_all..measure_all or subcircuit{}) with <= N nodes and <= 6 subcircuits (nests without any subcircuit "
+        "only up to 3 nodes), plus the nests over open "
         "prepare_all / measure_all leaves that the C12 model accepts and that straddle a loop or block boundary, "
         "plus let-valued and overridden counts on the smaller nests; non-trivial = at least one loop and one "
         "subcircuit; distinct by (variant, nest skeleton)"
@@ -372,8 +373,11 @@ class C08(Check):
 
     @staticmethod
     def _keep(fam, variant, forest):
-        if n_closers(forest) > MAX_SUBCIRCUITS:
+        nc = n_closers(forest)
+        if nc > MAX_SUBCIRCUITS:
             return False
+        if nc == 0 and nestlib.count_nodes(forest) > 3:
+            return False  # nests without any subcircuit are kept only up to 3 nodes
         nl = n_loops(forest)
         if variant != "lit" and nl == 0:
             return False
